@@ -96,6 +96,32 @@ def work(task):
     if ok:
       P.equal(f'{tag}|K4 roots are computed from the statistics after this step\'s update',
               np.concatenate([toobj(a).reshape(-1) for a in fed]), np.concatenate([toobj(a).reshape(-1) for a in want]), rng)
+      # K4': on EVERY multiple of the preconditioner frequency the stored roots are the masked eigen-form of that
+      # decomposition (not the old roots), whatever the statistics frequency
+      from ..harness import f32 as _f32
+      pw = 2 * len(shape)
+      recs = [rec for rec in I.ctx.decomps if rec['kind'] == 'eigh']
+      k_ = 0
+      for ax in range(len(nb.stats)):
+        for n in range(nb.stats[ax].shape[0]):
+          w, V = recs[k_]['w'], recs[k_]['V']
+          k_ += 1
+          d_ = len(w)
+          wmax = w[0]
+          for j in range(1, d_):
+            wmax = R.s_max(wmax, w[j])
+          root = np.empty((d_, d_), dtype=object)
+          for i in range(d_):
+            for j in range(d_):
+              acc = Fraction(0)
+              for kk in range(d_):
+                keep = R.s_not(R.s_le(w[kk], R.s_mul(_f32(1e-6), wmax)))
+                h = I.pow(w[kk], _f32(-0.5 / pw))
+                acc = R.s_add(acc, R.s_mul(R.s_if(keep, R.s_mul(h, h), Fraction(0)), R.s_mul(V[i, kk], V[j, kk])))
+              root[i, j] = acc
+          sp = [zl(w[kk]) <= zl(R.s_mul(_f32(1e-6), wmax)) for kk in range(d_)]
+          P.equal(f'{tag}|K4 roots axis {ax} block {n} are refreshed (eigen-form of the current statistics) whenever count % fp == 0',
+                  nb.roots[ax][n], root, rng + ([count % fp == 0] if fp > 1 else []), split=sp)
   elif kind == 'tf_sketchy':
     f = c['sk_freq']
     tag = f"TF-Sketchy|{'x'.join(map(str, shape))}|rank={c['sk_rank']},freq={f},decay={c['decay']}"
